@@ -3,7 +3,7 @@
 From Coq Require Import ZArith.
 From QwtModel Require Export ListX Consts.
 
-Definition line := list N.                       (* 256 two-bit symbols *)
+Notation line := (list N) (only parsing).                       (* 256 two-bit symbols *)
 Record qvec := mk_qvec { qv_data : list line; qv_position : N }.
 
 Definition zero_line : line := repeat 0 LINE_SYMS_nat.     (* DataLine::default() *)
